@@ -393,14 +393,36 @@ Lemma kpath_insert_key r f : kpath (insert_key r f) = rq_path r.
 Proof. unfold insert_key. destruct (f_spref f =? SP_QUERY); [apply kpath_pq | apply kpath_p]. Qed.
 
 (** ---- 5. every history: the invariant, no panic, what is served ---- *)
+(** what the cache layer reads off the URI that is looked up is what the real request carries: an internal override URI
+    replaces path and query, never the method or a header *)
+Lemma lreq_same q :
+  rq_method (lreq q) = rq_method (fst q) /\ rq_headers (lreq q) = rq_headers (fst q) /\
+  (snd q = None -> lreq q = fst q) /\
+  (forall p qu, snd q = Some (p, qu) -> rq_path (lreq q) = p /\ rq_query (lreq q) = qu).
+Proof.
+  destruct q as [r [[p qu]|]]; unfold lreq; cbn [fst snd lookup_req rq_method rq_headers rq_path rq_query].
+  - split; [reflexivity|]. split; [reflexivity|]. split; [discriminate|].
+    intros p1 q1 H; inversion H; subst; split; reflexivity.
+  - split; [reflexivity|]. split; [reflexivity|]. split; [reflexivity|]. intros; discriminate.
+Qed.
+Lemma lreq_headers_for refs q : headers_for_request refs (lreq q) = headers_for_request refs (fst q).
+Proof.
+  unfold headers_for_request. apply map_ext. intros ref. unfold header_for, header_get.
+  rewrite (proj1 (proj2 (lreq_same q))). reflexivity.
+Qed.
+Lemma lreq_get_by_request {A} (v : varied A) q : vr_get_by_request v (lreq q) = vr_get_by_request v (fst q).
+Proof. unfold vr_get_by_request. rewrite lreq_headers_for. reflexivity. Qed.
+Lemma lreq_no_route r : lreq (no_route r) = r.
+Proof. reflexivity. Qed.
+
 Section Histories.
   Variable hstate : Type.
-  Variable compute : hstate -> request -> bool -> fat * hstate * list bytes.
+  Variable compute : hstate -> routed -> bool -> fat * hstate * list bytes.
   Variable cache_on : bool.
   Variable ims_on : bool.
   Variable parse_ims : bytes -> option Z.
   Variable sanitize_ok : request -> bool.
-  Variable prime : request -> request.
+  Variable prime : request -> routed.
   Variable negotiate : request -> fat -> option (N * bytes).
   Variable rules_of : bytes -> list rule.
   Variable dbg : bool.
@@ -414,13 +436,16 @@ Section Histories.
   Notation runX := (runV hstate compute cache_on ims_on parse_ims sanitize_ok prime negotiate rules_of dbg).
   Notation run_stateX := (runV_state hstate compute cache_on ims_on parse_ims sanitize_ok prime negotiate rules_of dbg).
 
-  (** [f] is a response the layer below produced for request [r1] *)
-  Definition computed (f : fat) (r1 : request) : Prop := exists hs1 ok1, fst (fst (compute hs1 r1 ok1)) = f.
+  (** [f] is a response the layer below produced for the request [q1] (a request and its override URI) *)
+  Definition computed (f : fat) (q1 : routed) : Prop := exists hs1 ok1, fst (fst (compute hs1 q1 ok1)) = f.
 
+  (** the entry under key [k]: sorted, not empty, built with the rules of the key's path, and every stored response was
+      computed for a request that is cached under that path (its own, or the internal one a Prime gave it) with exactly
+      the stored transformed list — the list the rules of THAT path make of its headers *)
   Definition entry_okV (k : key) (e : ventry) : Prop :=
     vsorted (vr_resps (ve_var e)) /\ vr_resps (ve_var e) <> [] /\ vr_refs (ve_var e) = rules_of (kpath k) /\
     forall f hc, In (f, hc) (vr_resps (ve_var e)) ->
-      exists r1, computed f r1 /\ rq_path r1 = kpath k /\ hc = headers_for_request (rules_of (kpath k)) r1.
+      exists q1, computed f q1 /\ cpath q1 = kpath k /\ hc = headers_for_request (rules_of (kpath k)) (lreq q1).
   Definition InvV (c : vcache) : Prop := forall k e, pc_find k c = Some e -> entry_okV k e.
 
   Lemma InvV_nil : InvV [].
@@ -473,51 +498,51 @@ Section Histories.
         split; [exact I2|]. split; [reflexivity | exact E2].
   Qed.
 
-  Lemma computed_by hs r ok f hs' lg : compute hs r ok = (f, hs', lg) -> computed f r.
+  Lemma computed_by hs q ok f hs' lg : compute hs q ok = (f, hs', lg) -> computed f q.
   Proof. intros H. exists hs, ok. rewrite H. reflexivity. Qed.
 
   (** what a request that ran the handler gets: the response computed for itself, labelled with its own
-      transformed header list *)
-  Definition own_reply (r : request) (rp : reply) : Prop :=
-    exists f lm cached, computed f r /\ rp = finishX r f (own r) lm cached.
+      transformed header list — the one the rules of the path it is cached under make of its headers *)
+  Definition own_reply (q : routed) (rp : reply) : Prop :=
+    exists f lm cached, computed f q /\ rp = finishX (fst q) f (own (lreq q)) lm cached.
 
-  Lemma new_and_cache_ok c1 hs' now r f lg lm_of cached :
-    InvV c1 -> computed f r ->
-    exists st' rp, new_and_cache hstate cache_on negotiate rules_of dbg c1 hs' now r f lg lm_of cached = Ok (st', rp, lg, [r])
-                   /\ InvV (fst st') /\ snd st' = hs' /\ rp = finishX r f (own r) (lm_of f) cached.
+  Lemma new_and_cache_ok c1 hs' now q f lg lm_of cached :
+    InvV c1 -> computed f q ->
+    exists st' rp, new_and_cache hstate cache_on negotiate rules_of dbg c1 hs' now q f lg lm_of cached = Ok (st', rp, lg, [q])
+                   /\ InvV (fst st') /\ snd st' = hs' /\ rp = finishX (fst q) f (own (lreq q)) (lm_of f) cached.
   Proof.
-    intros I Cf. unfold new_and_cache. rewrite vr_new_eq. cbn [vr_first vr_resps].
-    destruct (may_store cache_on (rq_method r) f).
+    intros I Cf. unfold new_and_cache. cbv zeta. rewrite vr_new_eq. cbn [vr_first vr_resps].
+    destruct (may_store cache_on (rq_method (lreq q)) f).
     - eexists; eexists. split; [reflexivity|]. cbn [fst snd]. split; [|split; reflexivity].
       apply InvV_insert; [exact I|]. unfold entry_okV. cbn [ve_var vr_resps vr_refs]. rewrite kpath_insert_key.
       split; [|split; [|split]].
       + constructor; constructor.
       + discriminate.
       + reflexivity.
-      + intros f0 hc [Eq|[]]. inversion Eq; subst. exists r. split; [exact Cf | split; reflexivity].
+      + intros f0 hc [Eq|[]]. inversion Eq; subst. exists q. split; [exact Cf | split; reflexivity].
     - eexists; eexists. split; [reflexivity|]. cbn [fst snd]. split; [exact I | split; reflexivity].
   Qed.
 
-  Lemma missV_ok c1 hs now r ok :
+  Lemma missV_ok c1 hs now q ok :
     InvV c1 ->
-    exists st' rp lg, missV hstate compute cache_on ims_on negotiate rules_of dbg c1 hs now r ok = Ok (st', rp, lg, [r])
-                      /\ InvV (fst st') /\ own_reply r rp
-                      /\ snd st' = snd (fst (compute hs r ok)) /\ lg = snd (compute hs r ok).
+    exists st' rp lg, missV hstate compute cache_on ims_on negotiate rules_of dbg c1 hs now q ok = Ok (st', rp, lg, [q])
+                      /\ InvV (fst st') /\ own_reply q rp
+                      /\ snd st' = snd (fst (compute hs q ok)) /\ lg = snd (compute hs q ok).
   Proof.
-    intros I. unfold missV. destruct (compute hs r ok) as [[f hs'] lg] eqn:C.
-    destruct (new_and_cache_ok c1 hs' now r f lg (fun f0 => ims_on && wants_cache cache_on (rq_method r) f0) false I
+    intros I. unfold missV. destruct (compute hs q ok) as [[f hs'] lg] eqn:C.
+    destruct (new_and_cache_ok c1 hs' now q f lg (fun f0 => ims_on && wants_cache cache_on (rq_method (lreq q)) f0) false I
                 (computed_by _ _ _ _ _ _ C)) as (st' & rp & E & I' & Es & Er).
     exists st', rp, lg. rewrite E. cbn [fst snd]. split; [reflexivity|]. split; [exact I'|]. split; [|split; [exact Es | reflexivity]].
-    exists f, (ims_on && wants_cache cache_on (rq_method r) f), false. split; [eapply computed_by; eassumption | exact Er].
+    exists f, (ims_on && wants_cache cache_on (rq_method (lreq q)) f), false. split; [eapply computed_by; eassumption | exact Er].
   Qed.
 
   (** the suspended half of a request is consistent with *some* earlier cache *)
   Definition parked_ok (p : parked) : Prop :=
     match p with
-    | PkMiss r ok => True
-    | PkVary r ok k position headers => kpath k = rq_path r /\ headers = own r
+    | PkMiss q ok => True
+    | PkVary q ok k position headers => kpath k = cpath q /\ headers = own (lreq q)
     end.
-  Definition parked_req (p : parked) : request := match p with PkMiss r _ => r | PkVary r _ _ _ _ => r end.
+  Definition parked_req (p : parked) : routed := match p with PkMiss q _ => q | PkVary q _ _ _ _ => q end.
   Definition parked_flag (p : parked) : bool := match p with PkMiss _ ok => ok | PkVary _ ok _ _ _ => ok end.
 
   (** [stale_position_safe] (repaired code): phase 2 of a request may run against *any* cache that
@@ -530,25 +555,24 @@ Section Histories.
                       /\ snd st' = snd (fst (compute hs (parked_req p) (parked_flag p)))
                       /\ lg = snd (compute hs (parked_req p) (parked_flag p)).
   Proof.
-    intros I Hp. destruct p as [r ok | r ok k position headers]; cbn [serveV_phase2 parked_req parked_flag].
+    intros I Hp. destruct p as [q ok | q ok k position headers]; cbn [serveV_phase2 parked_req parked_flag].
     - apply missV_ok. exact I.
-    - destruct Hp as [Hk Hh]. unfold vary_missing.
-      destruct (compute hs r ok) as [[f hs'] lg] eqn:C. cbn [fst snd].
+    - destruct Hp as [Hk Hh]. unfold vary_missing. cbv zeta. set (r := lreq q) in *.
+      destruct (compute hs q ok) as [[f hs'] lg] eqn:C. cbn [fst snd].
       pose proof (computed_by _ _ _ _ _ _ C) as Cf.
       destruct (vrelookup k c now) as [[k' found'] c2] eqn:L.
       destruct (vrelookup_inv _ _ _ _ _ _ L I) as (I2 & Hk' & Hf).
       destruct found' as [e'|].
       + destruct (Hf e' eq_refl) as (S & Hne & Hrefs & Hall).
-        assert (Hp' : kpath k' = rq_path r) by congruence.
+        assert (Hp' : kpath k' = rq_path r) by (unfold cpath in Hk; fold r in Hk; congruence).
         destruct (get_by_request_sorted (ve_var e') r S) as [(f0 & _ & _ & Eg) | (_ & LL & G & El & Eg & FL & FG)]; rewrite Eg.
-        * exists (c2, hs'), (finishX r f headers ims_on true), lg. cbn [fst snd].
+        * exists (c2, hs'), (finishX (fst q) f headers ims_on true), lg. cbn [fst snd].
           split; [reflexivity|]. split; [exact I2|]. split; [|split; reflexivity].
           exists f, ims_on, true. subst headers. split; [exact Cf | reflexivity].
-        * cbv zeta.
-          destruct (wants_cache cache_on (rq_method r) f && (negb (f_spref f =? SP_QUERY) || key_has_query k')
+        * destruct (wants_cache cache_on (rq_method r) f && (negb (f_spref f =? SP_QUERY) || key_has_query k')
                     && negb (kvarn_none f)).
           2:{ (* the variant is not admitted: served, the cache left as it is *)
-              exists (c2, hs'), (finishX r f (headers_for_request (vr_refs (ve_var e')) r) ims_on true), lg. cbn [fst snd].
+              exists (c2, hs'), (finishX (fst q) f (headers_for_request (vr_refs (ve_var e')) r) ims_on true), lg. cbn [fst snd].
               split; [reflexivity|]. split; [exact I2|]. split; [|split; reflexivity].
               exists f, ims_on, true. split; [exact Cf|]. rewrite Hrefs, Hp'. reflexivity. }
           rewrite (push_at dbg (ve_var e') LL G f _ El) by apply headers_for_request_length.
@@ -561,20 +585,20 @@ Section Histories.
              ++ exact Hrefs.
              ++ intros f1 hc Hin. apply in_app_or in Hin. destruct Hin as [Hin | [Eq | Hin]].
                 ** apply Hall. rewrite El. apply in_or_app. left. exact Hin.
-                ** inversion Eq; subst f1 hc. exists r. rewrite Hrefs, Hp'. split; [exact Cf | split; reflexivity].
+                ** inversion Eq; subst f1 hc. exists q. rewrite Hrefs. split; [exact Cf | split; [unfold cpath; fold r; congruence | reflexivity]].
                 ** apply Hall. rewrite El. apply in_or_app. right. exact Hin.
           -- exists f, ims_on, true. split; [exact Cf|]. rewrite Hrefs, Hp'. reflexivity.
-      + destruct (new_and_cache_ok c2 hs' now r f lg (fun _ => ims_on) true I2 Cf) as (st' & rp & E & I' & Es & Er).
+      + destruct (new_and_cache_ok c2 hs' now q f lg (fun _ => ims_on) true I2 Cf) as (st' & rp & E & I' & Es & Er).
         exists st', rp, lg. rewrite E. split; [reflexivity|]. split; [exact I'|]. split; [|split; [exact Es | reflexivity]].
         exists f, ims_on, true. split; [exact Cf | exact Er].
   Qed.
 
-  (** a reply served from the cache: the entry holds a response that was computed for a request with the same
-      path and an *equal* transformed header list, and the reply is that stored response — or, since the repair
-      832d735 only then, the bare 304 that vouches for it *)
-  Definition cached_reply (r : request) (rp : reply) : Prop :=
-    exists f r1, computed f r1 /\ rq_path r1 = rq_path r /\ own r1 = own r /\
-      ((rp_status rp = 304 /\ rp_body rp = [] /\ rp_headers rp = []) \/ rp = finishX r f (own r) ims_on true).
+  (** a reply served from the cache: the entry holds a response that was computed for a request cached under the same
+      path with an *equal* transformed header list (under the rules of that path), and the reply is that stored response —
+      or, since the repair 832d735 only then, the bare 304 that vouches for it *)
+  Definition cached_reply (q : routed) (rp : reply) : Prop :=
+    exists f q1, computed f q1 /\ cpath q1 = cpath q /\ own (lreq q1) = own (lreq q) /\
+      ((rp_status rp = 304 /\ rp_body rp = [] /\ rp_headers rp = []) \/ rp = finishX (fst q) f (own (lreq q)) ims_on true).
 
   Lemma phase1_ok c hs now r0 :
     InvV c ->
@@ -582,35 +606,56 @@ Section Histories.
     \/ (exists c1 p, phase1 (c, hs) now r0 = Ok (inr (c1, p)) /\ InvV c1 /\ parked_ok p /\
                      parked_req p = prime r0 /\ parked_flag p = sanitize_ok r0).
   Proof.
-    intros I. unfold serveV_phase1, serveV_phase1_gen. set (r := prime r0). set (ok := sanitize_ok r0).
+    intros I. unfold serveV_phase1, serveV_phase1_gen. cbv zeta. set (q := prime r0). set (r := lreq q). set (ok := sanitize_ok r0).
     destruct cache_on; cbn [negb].
-    2:{ right. exists c, (PkMiss r ok). split; [reflexivity|]. split; [exact I|]. cbn. auto. }
+    2:{ right. exists c, (PkMiss q ok). split; [reflexivity|]. split; [exact I|]. cbn. auto. }
     destruct (vlookup r c now) as [[k found0] c1] eqn:L.
     destruct (vlookup_inv _ _ _ _ _ _ L I) as (I1 & Hk & Hf).
     destruct found0 as [e|].
-    2:{ right. exists c1, (PkMiss r ok). split; [reflexivity|]. split; [exact I1|]. cbn. auto. }
+    2:{ right. exists c1, (PkMiss q ok). split; [reflexivity|]. split; [exact I1|]. cbn. auto. }
     destruct (ok && get_or_head (rq_method r)).
-    2:{ right. exists c1, (PkMiss r ok). split; [reflexivity|]. split; [exact I1|]. cbn. auto. }
-    cbv zeta. cbn [orb].
+    2:{ right. exists c1, (PkMiss q ok). split; [reflexivity|]. split; [exact I1|]. cbn. auto. }
+    cbn [orb].
     destruct (Hf e eq_refl) as (S & Hne & Hrefs & Hall).
     destruct (get_by_request_sorted (ve_var e) r S) as [(f0 & _ & Hin & Eg) | (_ & LL & G & El & Eg & FL & FG)]; rewrite Eg.
-    - left. destruct (Hall _ _ Hin) as (r1 & C1 & P1 & T1).
-      assert (Ho : own r1 = own r).
-      { rewrite Hrefs, Hk in *. unfold own_tuple. rewrite P1. symmetry. exact T1. }
+    - left. destruct (Hall _ _ Hin) as (q1 & C1 & P1 & T1).
+      assert (Ho : own (lreq q1) = own r).
+      { rewrite Hrefs, Hk in *. unfold own_tuple. unfold cpath in P1. rewrite P1. symmetry. exact T1. }
+      assert (P1' : cpath q1 = cpath q) by (unfold cpath at 2; fold r; congruence).
       destruct (match (if ims_on then match header (B "if-modified-since") r with Some v => parse_ims v | None => None end else None)
                 with Some t => ims_fresh t (ve_created e) | None => false end); cbn [andb].
       + eexists; eexists. split; [reflexivity|]. split; [exact I1|].
-        exists f0, r1. rewrite Hk in P1. split; [exact C1|]. split; [exact P1|]. split; [exact Ho|]. left. cbn. auto.
+        exists f0, q1. split; [exact C1|]. split; [exact P1'|]. split; [exact Ho|]. left. cbn. auto.
       + eexists; eexists. split; [reflexivity|]. split; [exact I1|].
-        exists f0, r1. rewrite Hrefs, Hk in *. split; [exact C1|]. split; [exact P1|]. split; [exact Ho|]. right. reflexivity.
-    - right. rewrite andb_false_r. exists c1, (PkVary r ok k (length LL) (headers_for_request (vr_refs (ve_var e)) r)).
+        exists f0, q1. rewrite Hrefs, Hk in *. split; [exact C1|]. split; [exact P1'|]. split; [exact Ho|]. right. reflexivity.
+    - right. rewrite andb_false_r. exists c1, (PkVary q ok k (length LL) (headers_for_request (vr_refs (ve_var e)) r)).
       split; [reflexivity|]. split; [exact I1|]. cbn [parked_ok parked_req parked_flag].
       split; [|split; reflexivity]. split; [exact Hk|]. rewrite Hrefs, Hk. reflexivity.
   Qed.
 
   (** one request, nothing in between *)
-  Definition served_ok (r : request) (rp : reply) (calls : list request) : Prop :=
-    (calls = [] /\ cached_reply r rp) \/ (calls = [r] /\ own_reply r rp).
+  Definition served_ok (q : routed) (rp : reply) (calls : list routed) : Prop :=
+    (calls = [] /\ cached_reply q rp) \/ (calls = [q] /\ own_reply q rp).
+
+  (** [served_ok] in terms of the request's own headers and the rules of the path it is cached under *)
+  Lemma own_lreq q : own (lreq q) = headers_for_request (rules_of (cpath q)) (fst q).
+  Proof. unfold own_tuple, cpath. apply lreq_headers_for. Qed.
+  Lemma served_ok_spelled q rp calls :
+    served_ok q rp calls ->
+    let rules := rules_of (cpath q) in
+    let mine := headers_for_request rules (fst q) in
+    (calls = [] /\ exists f q1 hs1 ok1,
+        fst (fst (compute hs1 q1 ok1)) = f /\ cpath q1 = cpath q /\ headers_for_request rules (fst q1) = mine /\
+        ((rp_status rp = 304 /\ rp_body rp = [] /\ rp_headers rp = []) \/ rp = finishX (fst q) f mine ims_on true))
+    \/ (calls = [q] /\ exists f hs1 ok1 lm cached,
+        fst (fst (compute hs1 q ok1)) = f /\ rp = finishX (fst q) f mine lm cached).
+  Proof.
+    intros [[Hc (f & q1 & (hs1 & ok1 & C1) & P1 & O1 & Hr)] | [Hc (f & lm & cached & (hs1 & ok1 & C1) & Hr)]]; cbv zeta.
+    - left. split; [exact Hc|]. exists f, q1, hs1, ok1. split; [exact C1|]. split; [exact P1|].
+      rewrite !own_lreq in O1. rewrite P1 in O1. split; [exact O1|].
+      rewrite own_lreq in Hr. exact Hr.
+    - right. split; [exact Hc|]. exists f, hs1, ok1, lm, cached. split; [exact C1|]. rewrite own_lreq in Hr. exact Hr.
+  Qed.
 
   Lemma serveV_ok c hs now r0 :
     InvV c ->
@@ -642,7 +687,7 @@ Section Histories.
   Qed.
 
   (** every observation of a history *)
-  Definition obs_ok (o : op) (oc : obs * list request) : Prop :=
+  Definition obs_ok (o : op) (oc : obs * list routed) : Prop :=
     match o, fst oc with
     | OReq r0, ObReply rp _ => served_ok (prime r0) rp (snd oc)
     | OReq _, _ => False
@@ -672,11 +717,11 @@ Proof.
 Qed.
 
 (** ---- 7. the [vary] header of a reply ---- *)
-Lemma finishV_vary negotiate rules_of r f lm cached :
-  let rp := finishV negotiate r f (own_tuple rules_of r) lm cached in
+Lemma finishV_vary negotiate rules_of r lr f lm cached :
+  let rp := finishV negotiate r f (own_tuple rules_of lr) lm cached in
   (rp_body rp <> [] ->
    assoc (B "vary") (rp_headers rp)
-   = Some (B "accept-encoding, range" ++ concat (map (fun ru => B ", " ++ ru_name ru) (rules_of (rq_path r)))))
+   = Some (B "accept-encoding, range" ++ concat (map (fun ru => B ", " ++ ru_name ru) (rules_of (rq_path lr)))))
   /\ (rp_body rp = [] -> assoc (B "vary") (rp_headers rp)
                          = match negotiate r f with Some _ => None | None => assoc (B "vary") (f_headers f) end).
 Proof.
@@ -685,6 +730,28 @@ Proof.
   - rewrite Hb. reflexivity.
   - apply apply_header_vary. exact Hb.
   - rewrite Hb. reflexivity.
+Qed.
+
+(** every rule header is a whole element of the list that follows the fixed part *)
+Lemma concat_names_split (g : rule -> bytes) (rules : list rule) ru :
+  In ru rules -> exists l1 l2, concat (map g rules) = concat (map g l1) ++ g ru ++ concat (map g l2) /\ rules = l1 ++ ru :: l2.
+Proof.
+  intros Hin. apply in_split in Hin as (l1 & l2 & ->). exists l1, l2. split; [|reflexivity].
+  rewrite map_app, concat_app. cbn [map concat]. reflexivity.
+Qed.
+Lemma finishV_lists_rule negotiate rules_of r lr f lm cached ru :
+  let rp := finishV negotiate r f (own_tuple rules_of lr) lm cached in
+  rp_body rp <> [] -> In ru (rules_of (rq_path lr)) ->
+  exists before after,
+    assoc (B "vary") (rp_headers rp) = Some (B "accept-encoding, range" ++ before ++ B ", " ++ ru_name ru ++ after) /\
+    (after = [] \/ exists rest, after = B ", " ++ rest).
+Proof.
+  intros rp Hb Hin. subst rp. rewrite (proj1 (finishV_vary negotiate rules_of r lr f lm cached) Hb).
+  destruct (concat_names_split (fun ru0 => B ", " ++ ru_name ru0) _ _ Hin) as (l1 & l2 & E & _).
+  exists (concat (map (fun ru0 => B ", " ++ ru_name ru0) l1)), (concat (map (fun ru0 => B ", " ++ ru_name ru0) l2)).
+  split; [apply f_equal; apply f_equal; etransitivity; [exact E|]; rewrite <- !app_assoc; reflexivity|].
+  destruct l2 as [|ru2 l2]; [left; reflexivity | right].
+  exists (ru_name ru2 ++ concat (map (fun ru0 => B ", " ++ ru_name ru0) l2)). cbn [map concat]. rewrite <- app_assoc. reflexivity.
 Qed.
 
 (** ---- 8. the server refines the finite map (page, transformed header list) -> response ---- *)
@@ -729,23 +796,23 @@ Qed.
 
 Section RefinesMap.
   Variable hstate : Type.
-  Variable compute : hstate -> request -> bool -> fat * hstate * list bytes.
+  Variable compute : hstate -> routed -> bool -> fat * hstate * list bytes.
   Variable ims_on : bool.
   Variable parse_ims : bytes -> option Z.
   Variable sanitize_ok : request -> bool.
-  Variable prime : request -> request.
+  Variable prime : request -> routed.
   Variable negotiate : request -> fat -> option (N * bytes).
   Variable rules_of : bytes -> list rule.
   Variable dbg : bool.
 
   (** every GET/HEAD response of the layer below is cacheable, under the path key, for ever *)
-  Definition always_stored : Prop := forall hs r, get_or_head (rq_method r) = true ->
-    let f := fst (fst (compute hs r true)) in
-    may_store true (rq_method r) f = true /\ lifetime_ms f = None /\ (f_spref f =? SP_QUERY) = false.
+  Definition always_stored : Prop := forall hs q, get_or_head (rq_method (lreq q)) = true ->
+    let f := fst (fst (compute hs q true)) in
+    may_store true (rq_method (lreq q)) f = true /\ lifetime_ms f = None /\ (f_spref f =? SP_QUERY) = false.
   Hypothesis Hstore : always_stored.
 
   Definition req_ok (r0 : request) : Prop :=
-    sanitize_ok r0 = true /\ (ims_on = false \/ header (B "if-modified-since") (prime r0) = None).
+    sanitize_ok r0 = true /\ (ims_on = false \/ header (B "if-modified-since") (lreq (prime r0)) = None).
   Definition op_ok (o : op) : Prop := match o with OReq r0 => req_ok r0 | _ => True end.
 
   Notation serveX := (serveV hstate compute true ims_on parse_ims sanitize_ok prime negotiate rules_of dbg).
@@ -811,7 +878,8 @@ Section RefinesMap.
                /\ RelS c' (fst (fst (fst (fst (specServe s hs r0))))).
   Proof.
     intros HR [Hok Hims].
-    unfold serveV, serveV_phase1, serveV_phase1_gen, spec_serve. cbn [negb]. rewrite Hok. set (r := prime r0) in *.
+    unfold serveV, serveV_phase1, serveV_phase1_gen, spec_serve. cbv zeta. cbn [negb]. rewrite Hok.
+    set (q := prime r0) in *. set (r := lreq q) in *.
     rewrite (vlookup_rel c s r now HR). cbn [andb].
     pose proof HR as [Hpq Hp]. specialize (Hp (rq_path r)).
     destruct (get_or_head (rq_method r)) eqn:GH; cbn [andb].
@@ -820,14 +888,14 @@ Section RefinesMap.
       { intros f. unfold may_store, wants_cache. rewrite GH, !andb_false_r. reflexivity. }
       assert (Hw : forall f, wants_cache true (rq_method r) f = false).
       { intros f. unfold wants_cache. rewrite GH, !andb_false_r. reflexivity. }
-      assert (E : forall c1, missV hstate compute true ims_on negotiate rules_of dbg c1 hs now r true
-                  = Ok ((c1, snd (fst (compute hs r true))),
-                        finishV negotiate r (fst (fst (compute hs r true))) (own_tuple rules_of r) false false,
-                        snd (compute hs r true), [r])).
-      { intros c1. unfold missV, new_and_cache. destruct (compute hs r true) as [[f hs'] lg]. cbn [fst snd].
+      assert (E : forall c1, missV hstate compute true ims_on negotiate rules_of dbg c1 hs now q true
+                  = Ok ((c1, snd (fst (compute hs q true))),
+                        finishV negotiate (fst q) (fst (fst (compute hs q true))) (own_tuple rules_of r) false false,
+                        snd (compute hs q true), [q])).
+      { intros c1. unfold missV, new_and_cache. cbv zeta. fold r. destruct (compute hs q true) as [[f hs'] lg]. cbn [fst snd].
         rewrite vr_new_eq. cbn [vr_first vr_resps]. rewrite Hms, Hw, andb_false_r. reflexivity. }
       destruct (pc_find (KPath (rq_path r)) c) as [e|]; cbn [serveV_phase2 snd];
-        rewrite E; destruct (compute hs r true) as [[f hs'] lg]; cbn [fst snd]; rewrite !andb_false_r;
+        rewrite E; destruct (compute hs q true) as [[f hs'] lg]; cbn [fst snd]; rewrite !andb_false_r;
         exists c; (split; [reflexivity | exact HR]). }
     destruct (pc_find (KPath (rq_path r)) c) as [e|] eqn:F.
     - (* the page has an entry *)
@@ -836,7 +904,7 @@ Section RefinesMap.
                                            | Some v => parse_ims v | None => None end else None) with
                      | Some t => ims_fresh t (ve_created e) | None => false end) = false).
       { destruct Hims as [-> | Hh]; [reflexivity|]. fold r in Hh. rewrite Hh. destruct ims_on; reflexivity. }
-      cbv zeta. rewrite Hno. clear Hno. cbn [andb].
+      rewrite Hno. clear Hno. cbn [andb].
       assert (Ht : headers_for_request (vr_refs (ve_var e)) r = own_tuple rules_of r).
       { rewrite Hrefs. reflexivity. }
       destruct (get_by_request_sorted (ve_var e) r S) as [(f0 & Ef & _ & Eg) | (En & LL & G & El & Eg & FL & FG)];
@@ -844,12 +912,12 @@ Section RefinesMap.
       + (* hit *)
         rewrite <- Hfind, Ef. cbn [fst snd]. exists c. split; [reflexivity | exact HR].
       + (* this variant is missing: compute, push, re-insert *)
-        rewrite <- Hfind, En. cbn [serveV_phase2 snd]. unfold vary_missing.
-        pose proof (Hstore hs r GH) as HS.
-        destruct (compute hs r true) as [[f hs'] lg] eqn:C. cbn [fst snd] in *.
+        rewrite <- Hfind, En. cbn [serveV_phase2 snd]. unfold vary_missing. cbv zeta. fold r.
+        pose proof (Hstore hs q GH) as HS. fold r in HS.
+        destruct (compute hs q true) as [[f hs'] lg] eqn:C. cbn [fst snd] in *.
         destruct HS as (Hms & Hlf & Hq).
         unfold vrelookup, vget_item. cbn [key_p]. unfold key_p. rewrite F. unfold vfresh. rewrite Hl.
-        rewrite Eg. cbv zeta.
+        rewrite Eg.
         assert (Hms' := Hms). unfold may_store in Hms'.
         apply andb_true_iff in Hms' as [Hms' Hkn]. apply andb_true_iff in Hms' as [Hw Hsz].
         rewrite Hw, Hq, Hkn, Hsz. cbn [negb orb andb].
@@ -860,9 +928,9 @@ Section RefinesMap.
         * apply insert_sorted; [rewrite <- El; exact S | exact FL | exact FG].
         * intros t'. rewrite vfind_insert by exact FL. rewrite <- El, Hfind. reflexivity.
     - (* first request to the page *)
-      rewrite (seen_find_nopage _ _ _ Hp). cbn [serveV_phase2 snd]. unfold missV, new_and_cache.
-      pose proof (Hstore hs r GH) as HS.
-      destruct (compute hs r true) as [[f hs'] lg] eqn:C. cbn [fst snd] in *.
+      rewrite (seen_find_nopage _ _ _ Hp). cbn [serveV_phase2 snd]. unfold missV, new_and_cache. cbv zeta. fold r.
+      pose proof (Hstore hs q GH) as HS. fold r in HS.
+      destruct (compute hs q true) as [[f hs'] lg] eqn:C. cbn [fst snd] in *.
       destruct HS as (Hms & Hlf & Hq).
       rewrite vr_new_eq. cbn [vr_first vr_resps]. rewrite Hms.
       assert (Hw : wants_cache true (rq_method r) f = true).
@@ -929,11 +997,12 @@ Section RefinesMap.
   Qed.
 
   (** ---- one computation per distinct (page, transformed header list) ---- *)
-  Definition cls (r : request) : bytes * hcoll := (rq_path r, own_tuple rules_of r).
+  (** the class of a request: the path it is cached under and its transformed list under the rules of that path *)
+  Definition cls (q : routed) : bytes * hcoll := (cpath q, own_tuple rules_of (lreq q)).
   Definition seen_cls (s : seen_t) : list (bytes * hcoll) := map fst s.
-  Definition calls_of (l : list (obs * list request)) : list request := concat (map snd l).
+  Definition calls_of (l : list (obs * list routed)) : list routed := concat (map snd l).
   Definition gh_req (o : op) : Prop :=
-    match o with OReq r0 => get_or_head (rq_method (prime r0)) = true | _ => False end.
+    match o with OReq r0 => get_or_head (rq_method (lreq (prime r0))) = true | _ => False end.
 
   Lemma seen_find_none_iff p t s : seen_find p t s = None <-> ~ In (p, t) (seen_cls s).
   Proof.
@@ -964,8 +1033,8 @@ Section RefinesMap.
     induction ops as [|o ops IH]; intros s hs Hops.
     - cbn. split; [constructor | split; [intros r [] | intros r0 []]].
     - inversion Hops as [|? ? Ho Hrest]; subst. destruct o as [r0 | r | | ms]; try contradiction.
-      cbn [gh_req] in Ho. cbn [spec_run spec_step]. unfold spec_serve. rewrite Ho. cbn [andb].
-      set (r := prime r0) in *.
+      cbn [gh_req] in Ho. cbn [spec_run spec_step]. unfold spec_serve. cbv zeta. rewrite Ho. cbn [andb].
+      set (q := prime r0) in *. set (r := lreq q) in *.
       destruct (seen_find (rq_path r) (own_tuple rules_of r) s) as [f|] eqn:Ef.
       + (* served from the map: no computation *)
         unfold calls_of. cbn [map snd concat app]. fold (calls_of (specRun s hs ops)).
@@ -973,7 +1042,7 @@ Section RefinesMap.
         intros r1 [Eq | Hin]; [|apply N3; exact Hin].
         inversion Eq; subst r1. apply in_or_app. left.
         apply (seen_find_some_in _ _ _ _ Ef).
-      + destruct (compute hs r true) as [[f hs'] lg]. unfold calls_of. cbn [map snd concat app fst].
+      + destruct (compute hs q true) as [[f hs'] lg]. unfold calls_of. cbn [map snd concat app fst].
         fold (calls_of (specRun ((rq_path r, own_tuple rules_of r, f) :: s) hs' ops)).
         destruct (IH ((rq_path r, own_tuple rules_of r, f) :: s) hs' Hrest) as (N1 & N2 & N3).
         cbn [seen_cls map fst] in N2, N3. fold (seen_cls s) in N2, N3.
@@ -994,12 +1063,12 @@ End RefinesMap.
 (** ---- 9. corollaries for histories that start with an empty cache ---- *)
 Section FromEmpty.
   Variable hstate : Type.
-  Variable compute : hstate -> request -> bool -> fat * hstate * list bytes.
+  Variable compute : hstate -> routed -> bool -> fat * hstate * list bytes.
   Variable cache_on : bool.
   Variable ims_on : bool.
   Variable parse_ims : bytes -> option Z.
   Variable sanitize_ok : request -> bool.
-  Variable prime : request -> request.
+  Variable prime : request -> routed.
   Variable negotiate : request -> fat -> option (N * bytes).
   Variable rules_of : bytes -> list rule.
   Variable dbg : bool.
@@ -1016,6 +1085,28 @@ Section FromEmpty.
                 (InvV_nil hstate compute rules_of)) as (l & st' & now' & E1 & E2 & I & _).
     exists l, st', now'. split; [exact E1|]. split; [exact E2|].
     intros k e F. destruct (I k e F) as (S & Hne & _). split; [exact S|]. split; [apply vsorted_NoDup; exact S | exact Hne].
+  Qed.
+
+  (** every cache item is built with the rules of the path it is stored under, and every stored list is what THOSE rules
+      make of the headers of a request that is cached under that path *)
+  Lemma entries_of_their_path ops hs now :
+    exists l st' now',
+      runV hstate compute cache_on ims_on parse_ims sanitize_ok prime negotiate rules_of dbg ([], hs) now ops = Ok l /\
+      runV_state hstate compute cache_on ims_on parse_ims sanitize_ok prime negotiate rules_of dbg ([], hs) now ops = Ok (st', now') /\
+      forall k e, pc_find k (fst st') = Some e ->
+        vr_refs (ve_var e) = rules_of (kpath k) /\
+        forall f hc, In (f, hc) (vr_resps (ve_var e)) ->
+          map fst hc = map ru_name (rules_of (kpath k)) /\
+          exists q1 hs1 ok1, fst (fst (compute hs1 q1 ok1)) = f /\ cpath q1 = kpath k /\
+                             hc = headers_for_request (rules_of (kpath k)) (fst q1).
+  Proof.
+    destruct (runV_ok hstate compute cache_on ims_on parse_ims sanitize_ok prime negotiate rules_of dbg ops [] hs now
+                (InvV_nil hstate compute rules_of)) as (l & st' & now' & E1 & E2 & I & _).
+    exists l, st', now'. split; [exact E1|]. split; [exact E2|].
+    intros k e F. destruct (I k e F) as (_ & _ & Hrefs & Hall). split; [exact Hrefs|].
+    intros f hc Hin. destruct (Hall f hc Hin) as (q1 & (hs1 & ok1 & C1) & P1 & ->).
+    split; [apply headers_for_request_names|].
+    exists q1, hs1, ok1. split; [exact C1|]. split; [exact P1|]. apply lreq_headers_for.
   Qed.
 
   Lemma computed_once_from_empty ops hs now :
@@ -1111,51 +1202,55 @@ Definition opx_of (o : op) : opx :=
 
 Lemma lookup_req_method r ov : rq_method (lookup_req r ov) = rq_method r.
 Proof. destruct ov as [[p q]|]; reflexivity. Qed.
+Lemma lookup_req_header n r ov : header n (lookup_req r ov) = header n r.
+Proof. destruct ov as [[p q]|]; reflexivity. Qed.
 
 Section RefinesAssoc.
   Variable hstate : Type.
-  Variable compute : hstate -> request -> bool -> fat * hstate * list bytes.
+  Variable compute : hstate -> routed -> bool -> fat * hstate * list bytes.
   Variable cache_on : bool.
   Variable ims_on : bool.
   Variable parse_ims : bytes -> option Z.
   Variable sanitize_ok : request -> bool.
-  Variable prime : request -> request.
+  Variable prime : request -> routed.
   Variable negotiate : request -> fat -> option (N * bytes).
   Variable rules_of : bytes -> list rule.
   Variable dbg : bool.
 
-  (** the instances of Model/CacheX.v's section variables that the vector model realises: the vary tuple is the list
-      of transformed values of the rules of the URI that is looked up, the vary header the one [get_header] builds,
-      responses are plain (no stream, no filler), the status filter is the default one, no Prime extension answers
-      with an internal URI, [clear_page] uses the default redirect *)
+  (** the instances of Model/CacheX.v's section variables that the vector model realises: the rewriting Primes and the
+      override URI are the two halves of [prime], the vary tuple is the list of transformed values of the rules of the URI
+      that is looked up, the vary header the one [get_header] builds, responses are plain (no stream, no filler), the status
+      filter is the default one, [clear_page] uses the default redirect *)
   Definition vary_tuple_of (r : request) : tuple := map snd (own_tuple rules_of r).
   Definition vary_header_of (r : request) (f : fat) : list (bytes * bytes) :=
     match f_body f with
     | [] => []
     | _ :: _ => [(B "vary", get_header (own_tuple rules_of r) false)]
     end.
-  Definition computeX (hs : hstate) (r : request) (ov : option (bytes * option bytes)) (ok : bool) : fatx * hstate * list bytes :=
-    let '(f, hs', lg) := compute hs (lookup_req r ov) ok in (plain f, hs', lg).
+  Definition computeX (hs : hstate) (r : request) (ov : ovr) (ok : bool) : fatx * hstate * list bytes :=
+    let '(f, hs', lg) := compute hs (r, ov) ok in (plain f, hs', lg).
   Definition negotiateX (r : request) (x : fatx) : option (N * bytes) := negotiate r (fx_fat x).
   Definition vary_tupleX (r : request) (ov : option (bytes * option bytes)) : tuple := vary_tuple_of (lookup_req r ov).
   Definition vary_headerX (r : request) (ov : option (bytes * option bytes)) (x : fatx) : list (bytes * bytes) :=
     vary_header_of (lookup_req r ov) (fx_fat x).
-  Definition no_override (r : request) : option (bytes * option bytes) := None.
+  Definition primeX (r0 : request) : request := fst (prime r0).
+  Definition overrideX (r0 : request) : option (bytes * option bytes) := snd (prime r0).
   (** handlers do not set a [vary] header of their own (Model/CacheX.v appends the cache's; the code replaces) *)
-  Hypothesis Hnovary : forall hs r ok, assoc (B "vary") (f_headers (fst (fst (compute hs r ok)))) = None.
+  Hypothesis Hnovary : forall hs q ok, assoc (B "vary") (f_headers (fst (fst (compute hs q ok)))) = None.
 
   Notation own := (own_tuple rules_of).
   Notation serveVn := (serveV hstate compute cache_on ims_on parse_ims sanitize_ok prime negotiate rules_of dbg).
   Notation serveA := (CacheX.serveX hstate computeX cache_on ims_on true true true true true status_filter_drop parse_ims
-                                    sanitize_ok prime no_override negotiateX vary_tupleX vary_headerX).
+                                    sanitize_ok primeX overrideX negotiateX vary_tupleX vary_headerX).
   Notation finishA := (CacheX.finishX true negotiateX vary_headerX).
   Notation finishVn := (finishV negotiate).
 
-  Lemma finish_same r f lm cached m :
-    assoc (B "vary") (f_headers f) = None -> rx_of (finishVn r f (own r) lm cached) = finishA r None (plain f) lm cached m.
+  Lemma finish_same r ov lr f lm cached m :
+    lr = lookup_req r ov -> assoc (B "vary") (f_headers f) = None ->
+    rx_of (finishVn r f (own lr) lm cached) = finishA r ov (plain f) lm cached m.
   Proof.
-    intros Hn. unfold finishV, CacheX.finishX, negotiateX, vary_headerX, vary_header_of, apply_header, rx_of.
-    cbn [is_stream plain fx_stream fx_fat fx_pad lookup_req]. destruct (negotiate r f) as [[st body]|].
+    intros -> Hn. unfold finishV, CacheX.finishX, negotiateX, vary_headerX, vary_header_of, apply_header, rx_of.
+    cbn [is_stream plain fx_stream fx_fat fx_pad]. destruct (negotiate r f) as [[st body]|].
     - cbn [f_body rp_status rp_headers rp_body rp_identity rp_last_modified rp_from_cache]. destruct body; reflexivity.
     - cbn [rp_status rp_headers rp_body rp_identity rp_last_modified rp_from_cache]. rewrite orb_true_r. cbn [andb].
       destruct (f_body f) eqn:Eb.
@@ -1251,25 +1346,27 @@ Section RefinesAssoc.
   Lemma vrelookup_same k cV now ve : pc_find k cV = Some ve -> vfresh ve now = true -> vrelookup k cV now = ((k, Some ve), cV).
   Proof. intros F Fr. unfold vrelookup, vget_item. rewrite F, Fr. reflexivity. Qed.
 
-  Lemma miss_rel cV1 c1 hs now r ok :
+  Lemma miss_rel cV1 c1 hs now r ov ok :
     InvV hstate compute rules_of cV1 -> cache_rel cV1 c1 ->
     exists cV' c' hs' rp lg,
-      missV hstate compute cache_on ims_on negotiate rules_of dbg cV1 hs now r ok = Ok ((cV', hs'), rp, lg, [r]) /\
-      missX hstate computeX cache_on ims_on true true status_filter_drop negotiateX vary_tupleX vary_headerX c1 hs now r None ok
+      missV hstate compute cache_on ims_on negotiate rules_of dbg cV1 hs now (r, ov) ok = Ok ((cV', hs'), rp, lg, [(r, ov)]) /\
+      missX hstate computeX cache_on ims_on true true status_filter_drop negotiateX vary_tupleX vary_headerX c1 hs now r ov ok
       = ((c', hs'), rx_of rp, lg) /\
       cache_rel cV' c'.
   Proof.
-    intros I H. unfold missV, missX, new_and_cache, computeX. cbn [lookup_req]. pose proof (Hnovary hs r ok) as Hn.
-    destruct (compute hs r ok) as [[f hs'] lg]. cbn [fst snd] in Hn.
-    rewrite vr_new_eq. cbn [vr_first vr_resps]. rewrite may_store_same, wants_same.
-    rewrite <- (finish_same r f _ false true Hn).
+    intros I H. unfold missV, missX, new_and_cache, computeX, lreq. cbv zeta. cbn [fst snd]. pose proof (Hnovary hs (r, ov) ok) as Hn.
+    set (lr := lookup_req r ov).
+    destruct (compute hs (r, ov) ok) as [[f hs'] lg]. cbn [fst snd] in Hn.
+    assert (Hm : rq_method lr = rq_method r) by apply lookup_req_method.
+    rewrite vr_new_eq. cbn [vr_first vr_resps]. rewrite may_store_same, wants_same, !Hm.
+    fold (own lr). rewrite <- (finish_same r ov lr f _ false true eq_refl Hn).
     destruct (may_store cache_on (rq_method r) f).
     - eexists; eexists; eexists; eexists; eexists. split; [reflexivity|]. split; [reflexivity|]. cbn [plain fx_fat].
       apply cache_rel_insert; [exact H|]. unfold entry_rel, lifetime_x.
       cbn [ve_created ve_life ex_created ex_life ve_var vr_resps ex_vars plain fx_fat].
       split; [reflexivity|]. split; [reflexivity|]. intros r1 Hp. rewrite kpath_insert_key in Hp.
-      cbn [xv_find v_tuple]. unfold vfind, vary_tupleX. cbn [find snd lookup_req]. fold (own r). rewrite <- (own_eqb r1 r Hp).
-      destruct (hc_eqb (own r) (own r1)); reflexivity.
+      cbn [xv_find v_tuple]. unfold vfind, vary_tupleX. cbn [find snd]. fold lr. rewrite <- (own_eqb r1 lr Hp).
+      destruct (hc_eqb (own lr) (own r1)); reflexivity.
     - eexists; eexists; eexists; eexists; eexists. split; [reflexivity|]. split; [reflexivity|]. exact H.
   Qed.
 
@@ -1279,44 +1376,47 @@ Section RefinesAssoc.
       serveVn (cV, hs) now r0 = Ok ((cV', hs'), rp, lg, calls) /\
       serveA (c, hs) now r0 = ((c', hs'), rx_of rp, lg) /\ cache_rel cV' c'.
   Proof.
-    intros I H. unfold serveV, serveV_phase1, serveV_phase1_gen, CacheX.serveX, no_override.
-    set (r := prime r0). set (ok := sanitize_ok r0). cbn [lookup_req].
+    intros I H. unfold serveV, serveV_phase1, serveV_phase1_gen, CacheX.serveX, primeX, overrideX. cbv zeta.
+    destruct (prime r0) as [r ov]. unfold lreq. cbn [fst snd]. set (lr := lookup_req r ov). set (ok := sanitize_ok r0).
+    assert (Hm : rq_method lr = rq_method r) by apply lookup_req_method.
     destruct (negb cache_on) eqn:Eco.
     { assert (Hc : cache_on = false) by (destruct cache_on; [discriminate | reflexivity]).
-      cbn [serveV_phase2 snd]. unfold missV, new_and_cache, computeX. cbn [lookup_req]. pose proof (Hnovary hs r ok) as Hn.
-      destruct (compute hs r ok) as [[f hs'] lg]. cbn [fst snd] in Hn.
-      rewrite vr_new_eq. cbn [vr_first vr_resps]. rewrite <- (finish_same r f _ false true Hn).
-      assert (Hms : may_store cache_on (rq_method r) f = false) by (rewrite Hc; reflexivity).
-      assert (Hw : wants_cache cache_on (rq_method r) f = false) by (rewrite Hc; reflexivity).
+      cbn [serveV_phase2 snd]. unfold missV, new_and_cache, computeX, lreq. cbv zeta. cbn [fst snd]. fold lr.
+      pose proof (Hnovary hs (r, ov) ok) as Hn.
+      destruct (compute hs (r, ov) ok) as [[f hs'] lg]. cbn [fst snd] in Hn.
+      rewrite vr_new_eq. cbn [vr_first vr_resps]. fold (own lr). rewrite <- (finish_same r ov lr f _ false true eq_refl Hn).
+      assert (Hms : may_store cache_on (rq_method lr) f = false) by (rewrite Hc; reflexivity).
+      assert (Hw : wants_cache cache_on (rq_method lr) f = false) by (rewrite Hc; reflexivity).
       rewrite Hms, Hw, andb_false_r.
       eexists; eexists; eexists; eexists; eexists; eexists. split; [reflexivity|]. split; [reflexivity | exact H]. }
-    pose proof (lookup_rel r cV c now H) as L.
-    destruct (vlookup r cV now) as [[kV foundV] cV1] eqn:LV. destruct (xlookup r c now) as [[k found] c1] eqn:LA.
+    pose proof (lookup_rel lr cV c now H) as L.
+    destruct (vlookup lr cV now) as [[kV foundV] cV1] eqn:LV. destruct (xlookup lr c now) as [[k found] c1] eqn:LA.
     destruct (vlookup_inv hstate compute rules_of _ _ _ _ _ _ LV I) as (I1 & Hkp & Hent).
     destruct foundV as [ve|], found as [e|]; try contradiction.
-    - destruct L as (-> & He & H1 & F & Fr).
+    - destruct L as (-> & He & H1 & F & Fr). rewrite Hm.
       destruct (ok && get_or_head (rq_method r)) eqn:G.
-      + destruct He as (Ec & El & Hv). rewrite Ec. cbv zeta. cbn [negb orb].
+      + destruct He as (Ec & El & Hv). rewrite Ec. cbn [negb orb].
+        unfold lr at 1. rewrite lookup_req_header. fold lr.
         destruct (Hent ve eq_refl) as (S & Hne & Hrefs & Hall).
-        assert (Ht : headers_for_request (vr_refs (ve_var ve)) r = own r) by (rewrite Hrefs, Hkp; reflexivity).
-        pose proof (Hv r (eq_sym Hkp)) as Hvr. unfold vary_tupleX. cbn [lookup_req].
-        destruct (get_by_request_sorted (ve_var ve) r S) as [(f0 & Ef & Hin & Eg) | (En & LL & GG & Ell & Eg & FL & FG)];
+        assert (Ht : headers_for_request (vr_refs (ve_var ve)) lr = own lr) by (rewrite Hrefs, Hkp; reflexivity).
+        pose proof (Hv lr (eq_sym Hkp)) as Hvr. unfold vary_tupleX. fold lr.
+        destruct (get_by_request_sorted (ve_var ve) lr S) as [(f0 & Ef & Hin & Eg) | (En & LL & GG & Ell & Eg & FL & FG)];
           rewrite Eg; rewrite Ht in *.
-        * rewrite Ef in Hvr. destruct (xv_find (vary_tuple_of r) (ex_vars e)) as [v|]; [|discriminate].
+        * rewrite Ef in Hvr. destruct (xv_find (vary_tuple_of lr) (ex_vars e)) as [v|]; [|discriminate].
           cbn [option_map] in Hvr. inversion Hvr as [Hvr']. clear Hvr.
-          destruct (Hall _ _ Hin) as (r1 & (hs1 & ok1 & C1) & _ & _).
+          destruct (Hall _ _ Hin) as (q1 & (hs1 & ok1 & C1) & _ & _).
           assert (Hn : assoc (B "vary") (f_headers f0) = None) by (rewrite <- C1; apply Hnovary).
-          rewrite Hvr'. rewrite <- (finish_same r f0 _ true false Hn).
+          rewrite Hvr'. rewrite <- (finish_same r ov lr f0 _ true false eq_refl Hn).
           destruct (match (if ims_on then match header (B "if-modified-since") r with Some v0 => parse_ims v0 | None => None end else None)
                     with Some t => ims_fresh t (ex_created e) | None => false end); cbn [andb];
             eexists; eexists; eexists; eexists; eexists; eexists; (split; [reflexivity|]); (split; [reflexivity | exact H1]).
-        * rewrite En in Hvr. destruct (xv_find (vary_tuple_of r) (ex_vars e)) as [v|]; [discriminate|]. clear Hvr.
-          rewrite !andb_false_r. cbn [serveV_phase2 snd]. unfold vary_missing, vary_missingX, computeX. cbn [lookup_req].
-          pose proof (Hnovary hs r ok) as Hn.
+        * rewrite En in Hvr. destruct (xv_find (vary_tuple_of lr) (ex_vars e)) as [v|]; [discriminate|]. clear Hvr.
+          rewrite !andb_false_r. cbn [serveV_phase2 snd]. unfold vary_missing, vary_missingX, computeX, lreq. cbv zeta. cbn [fst snd]. fold lr.
+          pose proof (Hnovary hs (r, ov) ok) as Hn.
           apply andb_true_iff in G as [Gok _]. rewrite Gok in *.
-          destruct (compute hs r true) as [[f hs'] lg]. cbn [fst snd] in Hn.
-          rewrite (vrelookup_same _ _ _ _ F Fr). rewrite Eg. cbv zeta. rewrite accept_same.
-          rewrite <- (finish_same r f _ true false Hn).
+          destruct (compute hs (r, ov) true) as [[f hs'] lg]. cbn [fst snd] in Hn.
+          rewrite (vrelookup_same _ _ _ _ F Fr). rewrite Eg. rewrite Hm. rewrite accept_same.
+          rewrite <- (finish_same r ov lr f _ true false eq_refl Hn).
           destruct (wants_cache cache_on (rq_method r) f && (negb (f_spref f =? SP_QUERY) || key_has_query k)
                     && negb (kvarn_none f)); cbn [andb].
           2:{ eexists; eexists; eexists; eexists; eexists; eexists. split; [reflexivity|]. split; [reflexivity | exact H1]. }
@@ -1328,22 +1428,22 @@ Section RefinesAssoc.
           cbn [ve_created ve_life ex_created ex_life ve_var vr_resps ex_vars plain fx_fat]. rewrite Ec, El.
           split; [reflexivity|]. split; [reflexivity|].
           intros r1 Hp. cbn [xv_find v_tuple]. rewrite vfind_insert by exact FL. rewrite <- Ell.
-          rewrite <- (own_eqb r1 r) by congruence.
-          destruct (hc_eqb (own r) (own r1)); [reflexivity | exact (Hv r1 Hp)].
-      + destruct (miss_rel cV1 c1 hs now r ok I1 H1) as (cV' & c' & hs' & rp & lg & E1 & E2 & H').
+          rewrite <- (own_eqb r1 lr) by congruence.
+          destruct (hc_eqb (own lr) (own r1)); [reflexivity | exact (Hv r1 Hp)].
+      + destruct (miss_rel cV1 c1 hs now r ov ok I1 H1) as (cV' & c' & hs' & rp & lg & E1 & E2 & H').
         cbn [serveV_phase2 snd]. rewrite E1, E2. eexists; eexists; eexists; eexists; eexists; eexists.
         split; [reflexivity|]. split; [reflexivity | exact H'].
-    - destruct L as [-> L]. destruct (miss_rel cV1 c1 hs now r ok I1 L) as (cV' & c' & hs' & rp & lg & E1 & E2 & H').
+    - destruct L as [-> L]. destruct (miss_rel cV1 c1 hs now r ov ok I1 L) as (cV' & c' & hs' & rp & lg & E1 & E2 & H').
       cbn [serveV_phase2 snd]. rewrite E1, E2. eexists; eexists; eexists; eexists; eexists; eexists.
       split; [reflexivity|]. split; [reflexivity | exact H'].
   Qed.
 
   Notation stepVn := (stepV hstate compute cache_on ims_on parse_ims sanitize_ok prime negotiate rules_of dbg).
   Notation stepA := (CacheX.stepX hstate computeX cache_on ims_on true true true true true true status_filter_drop parse_ims
-                                  sanitize_ok prime no_override negotiateX vary_tupleX vary_headerX redirect_target).
+                                  sanitize_ok primeX overrideX negotiateX vary_tupleX vary_headerX redirect_target).
   Notation runVn := (runV hstate compute cache_on ims_on parse_ims sanitize_ok prime negotiate rules_of dbg).
   Notation runA := (CacheX.runX hstate computeX cache_on ims_on true true true true true true status_filter_drop parse_ims
-                                sanitize_ok prime no_override negotiateX vary_tupleX vary_headerX redirect_target).
+                                sanitize_ok primeX overrideX negotiateX vary_tupleX vary_headerX redirect_target).
 
   Lemma find_rel_none k cV c : cache_rel cV c ->
     match pc_find k cV with None => true | Some _ => false end = match xc_find k c with None => true | Some _ => false end.
@@ -1397,30 +1497,32 @@ End RefinesAssoc.
 (** ---- 13. with C03: the caching server with variant vectors is transparent ---- *)
 Section VaryTransparent.
   Variable hstate : Type.
-  Variable compute : hstate -> request -> bool -> fat * hstate * list bytes.
+  Variable compute : hstate -> routed -> bool -> fat * hstate * list bytes.
   Variable ims_on : bool.
   Variable parse_ims : bytes -> option Z.
   Variable sanitize_ok : request -> bool.
-  Variable prime : request -> request.
+  Variable prime : request -> routed.
   Variable negotiate : request -> fat -> option (N * bytes).
   Variable rules_of : bytes -> list rule.
   Variable dbg : bool.
-  Hypothesis Hnovary : forall hs r ok, assoc (B "vary") (f_headers (fst (fst (compute hs r ok)))) = None.
-  (** the handler contract of C03, with the vary tuple made concrete: the transformed header list *)
-  Variable cf : request -> bool -> fat.
-  Hypothesis Hpure : forall hs r ok, fst (fst (compute hs r ok)) = cf r ok.
-  Hypothesis contract : forall r r',
-    get_or_head (rq_method r) = true -> get_or_head (rq_method r') = true ->
-    vary_tuple_of rules_of r = vary_tuple_of rules_of r' -> rq_path r = rq_path r' ->
-    (qm (cf r true) = true -> path_query r = path_query r') ->
-    cf r true = cf r' true.
-  Hypothesis Herr : forall r, f_spref (cf r false) = SP_NONE.
+  Hypothesis Hnovary : forall hs q ok, assoc (B "vary") (f_headers (fst (fst (compute hs q ok)))) = None.
+  (** the handler contract of C03, with the vary tuple made concrete: the transformed header list under the rules of the
+      URI the response is cached under.  For an internal route it says that the handler's response does not depend on
+      the page it is served for (kvarn caches it under the internal URI). *)
+  Variable cf : routed -> bool -> fat.
+  Hypothesis Hpure : forall hs q ok, fst (fst (compute hs q ok)) = cf q ok.
+  Hypothesis contract : forall q q',
+    get_or_head (rq_method (fst q)) = true -> get_or_head (rq_method (fst q')) = true ->
+    vary_tuple_of rules_of (lreq q) = vary_tuple_of rules_of (lreq q') -> cpath q = cpath q' ->
+    (qm (cf q true) = true -> path_query (lreq q) = path_query (lreq q')) ->
+    cf q true = cf q' true.
+  Hypothesis Herr : forall q, f_spref (cf q false) = SP_NONE.
 
   Lemma rx_equiv a c : replyx_equiv (rx_of a) (rx_of c) -> reply_equiv a c.
   Proof. intros (H1 & H2 & _ & H4 & _ & H6 & _). repeat split; assumption. Qed.
 
   Lemma vary_transparent ops hs hsU now :
-    Forall (op_no_ims ims_on prime) ops ->
+    Forall (op_no_ims ims_on (primeX prime)) ops ->
     exists l lU,
       runV hstate compute true ims_on parse_ims sanitize_ok prime negotiate rules_of dbg ([], hs) now ops = Ok l /\
       runV hstate compute false ims_on parse_ims sanitize_ok prime negotiate rules_of dbg ([], hsU) now ops = Ok lU /\
@@ -1434,14 +1536,14 @@ Section VaryTransparent.
     exists l, lU. split; [exact El|]. split; [exact ElU|].
     assert (Hsim : Forall2 obsx_equiv (map (fun oc => obx_of (fst oc)) l) (map (fun oc => obx_of (fst oc)) lU)).
     { rewrite Em, EmU.
-      apply (run_simx hstate (computeX hstate compute) ims_on true status_filter_drop parse_ims sanitize_ok prime no_override
+      apply (run_simx hstate (computeX hstate compute) ims_on true status_filter_drop parse_ims sanitize_ok (primeX prime) (overrideX prime)
                (negotiateX negotiate) (vary_tupleX rules_of) (vary_headerX rules_of) redirect_target
-               (fun r ov ok => plain (cf (lookup_req r ov) ok))).
-      - intros hs0 r ov ok. unfold computeX. pose proof (Hpure hs0 (lookup_req r ov) ok) as Hp.
-        destruct (compute hs0 (lookup_req r ov) ok) as [[f hs'] lg]. cbn [fst] in *. rewrite Hp. reflexivity.
-      - intros r ov r' ov' G G' Ht Hp Hq. f_equal. apply contract.
-        + rewrite lookup_req_method. exact G.
-        + rewrite lookup_req_method. exact G'.
+               (fun r (ov : ovr) ok => plain (cf (r, ov) ok))).
+      - intros hs0 r ov ok. unfold computeX. pose proof (Hpure hs0 (@pair request ovr r ov) ok) as Hp.
+        destruct (compute hs0 (@pair request ovr r ov) ok) as [[f hs'] lg]. cbn [fst] in *. rewrite Hp. reflexivity.
+      - intros r ov r' ov' G G' Ht Hp Hq. f_equal. apply (contract (r, ov) (r', ov')).
+        + exact G.
+        + exact G'.
         + exact Ht.
         + exact Hp.
         + exact Hq.
